@@ -63,6 +63,14 @@ TDefd(prog, key) == key \in DOMAIN prog.ty /\ prog.ty[key].k # "no"
 CDefd(prog, key) == key \in DOMAIN prog.co /\ prog.co[key].k # "no"
 SDefd(prog, key) == key \in DOMAIN prog.sv /\ prog.sv[key].k # "no"
 
+\* Thrift identifiers may contain dots, so "q.n" may be the name of a LOCAL definition: every lookup (LookupType,
+\* LookupConstant, LookupService) tries the whole name in the current scope before it splits at the first dot
+Dot(q, n) == q \o "." \o n
+IsQual(ref) == ref.q \notin {"", "base", "none"}
+TLocalDot(prog, m, ref) == IsQual(ref) /\ TDefd(prog, Key(m, Dot(ref.q, ref.n)))
+CLocalDot(prog, m, q, n) == q # "" /\ CDefd(prog, Key(m, Dot(q, n)))
+SLocalDot(prog, m, ref) == IsQual(ref) /\ SDefd(prog, Key(m, Dot(ref.q, ref.n)))
+
 \* modules loaded from the root "a" (load follows includes; registered before gather)
 RECURSIVE ReachFrom(_, _, _)
 ReachFrom(prog, frontier, seen) ==
@@ -125,6 +133,8 @@ LinkTRef(prog, s, m, ref, occ, d) ==
          IF TDefd(prog, Key(m, ref.n))
          THEN R(LinkType(prog, s, Key(m, ref.n), d + 1), HEnt(Key(m, ref.n)))
          ELSE R(Fail(s, "reference"), HNil)
+  ELSE IF TLocalDot(prog, m, ref)                    \* the whole dotted name is a local type
+       THEN R(LinkType(prog, s, Key(m, Dot(ref.q, ref.n)), d + 1), HEnt(Key(m, Dot(ref.q, ref.n))))
   ELSE \* include-qualified: LookupInclude in the scope's Includes, then a bare lookup there
        IF ref.q \in prog.inc[m] /\ TDefd(prog, Key(ref.q, ref.n))
        THEN R(LinkType(prog, s, Key(ref.q, ref.n), d + 1), HEnt(Key(ref.q, ref.n)))
@@ -191,6 +201,10 @@ LinkCVal(prog, s0, m, v, h, d) ==
               THEN LET s1 == LinkConst(prog, s, Key(m, v.n), d + 1) IN
                    IF Bad(s1) THEN V(s1, v) ELSE ConstRefLink(prog, s1, m, Key(m, v.n), h, d + 1)
               ELSE V(Fail(s, "reference"), v)
+         ELSE IF CLocalDot(prog, m, v.q, v.n)               \* the whole dotted name is a local constant
+              THEN LET ck == Key(m, Dot(v.q, v.n))
+                       s1 == LinkConst(prog, s, ck, d + 1) IN
+                   IF Bad(s1) THEN V(s1, v) ELSE ConstRefLink(prog, s1, m, ck, h, d + 1)
          ELSE \* split at the first dot: a local enum named q?  else an included scope named q
               IF TDefd(prog, Key(m, v.q)) /\ prog.ty[Key(m, v.q)].k = "en"
               THEN (IF v.n # "I" THEN V(Fail(s, "reference"), v)
@@ -231,6 +245,8 @@ ResolveSvc(prog, s, m, ref, d) ==
        IF SDefd(prog, Key(m, ref.n))
        THEN [s |-> LinkSvc(prog, s, Key(m, ref.n), d + 1), key |-> Key(m, ref.n)]
        ELSE [s |-> Fail(s, "reference"), key |-> <<"", "">>]
+  ELSE IF SLocalDot(prog, m, ref)                    \* the whole dotted name is a local service
+       THEN [s |-> LinkSvc(prog, s, Key(m, Dot(ref.q, ref.n)), d + 1), key |-> Key(m, Dot(ref.q, ref.n))]
   ELSE IF ref.q \in prog.inc[m] THEN ResolveSvc(prog, s, ref.q, Bare(ref.n), d + 1)
        ELSE [s |-> Fail(s, "reference"), key |-> <<"", "">>]
 
@@ -250,7 +266,8 @@ LinkSvc(prog, s0, key, d) ==
 (* findTypeCycles for a typedef: follow linked targets; structs break the chain *)
 TargetKey(prog, key) ==      \* the entity a typedef's target denotes, or <<"","">> for a base type
   LET ref == prog.ty[key].tgt m == ModOf(key) IN
-  IF ref.q = "base" THEN <<"", "">> ELSE IF ref.q = "" THEN Key(m, ref.n) ELSE Key(ref.q, ref.n)
+  IF ref.q = "base" THEN <<"", "">> ELSE IF ref.q = "" THEN Key(m, ref.n)
+  ELSE IF TLocalDot(prog, m, ref) THEN Key(m, Dot(ref.q, ref.n)) ELSE Key(ref.q, ref.n)
 
 RECURSIVE TdChainCycles(_, _, _)
 TdChainCycles(prog, key, seen) ==
@@ -301,14 +318,17 @@ Compile(prog, order) == CycleAll(prog, RunOrder(prog, InitStore(prog), order), L
 RefKeyOK(prog, m, ref) ==
   \/ ref.q \in {"base", "none"}
   \/ ref.q = "" /\ TDefd(prog, Key(m, ref.n))
+  \/ TLocalDot(prog, m, ref)
   \/ ref.q \notin {"", "base", "none"} /\ ref.q \in prog.inc[m] /\ TDefd(prog, Key(ref.q, ref.n))
-RefKey(m, ref) == IF ref.q = "" THEN Key(m, ref.n) ELSE Key(ref.q, ref.n)
+\* a local definition whose name is the whole dotted text hides the included one
+RefKey(prog, m, ref) == IF ref.q = "" THEN Key(m, ref.n)
+                        ELSE IF TLocalDot(prog, m, ref) THEN Key(m, Dot(ref.q, ref.n)) ELSE Key(ref.q, ref.n)
 
 \* ultimate non-typedef target of a type reference (assumes refs resolve and no typedef cycle)
 RECURSIVE TrueRootRef(_, _, _, _)
 TrueRootRef(prog, m, ref, fuel) ==
   IF ref.q = "base" THEN [k |-> "base", key |-> <<"", "">>, n |-> ref.n]
-  ELSE LET key == RefKey(m, ref) IN
+  ELSE LET key == RefKey(prog, m, ref) IN
        IF fuel = 0 \/ ~TDefd(prog, key) THEN [k |-> "nil", key |-> <<"", "">>, n |-> ""]
        ELSE IF prog.ty[key].k = "td" THEN TrueRootRef(prog, ModOf(key), prog.ty[key].tgt, fuel - 1)
        ELSE [k |-> "ent", key |-> key, n |-> ""]
@@ -352,6 +372,10 @@ DKind(prog, m, v, rt, fuel) ==
               ELSE LET c == prog.co[Key(m, v.n)]
                        own == IF RefKeyOK(prog, m, c.ty) THEN DKind(prog, m, c.val, TrueRootRef(prog, m, c.ty, 8), fuel - 1) ELSE KBad
                    IN IF own = KBad THEN KBad ELSE Recast(prog, own, rt)
+         ELSE IF CLocalDot(prog, m, v.q, v.n) THEN
+              LET c == prog.co[Key(m, Dot(v.q, v.n))]
+                  own == IF RefKeyOK(prog, m, c.ty) THEN DKind(prog, m, c.val, TrueRootRef(prog, m, c.ty, 8), fuel - 1) ELSE KBad
+              IN IF own = KBad THEN KBad ELSE Recast(prog, own, rt)
          ELSE IF TDefd(prog, Key(m, v.q)) /\ prog.ty[Key(m, v.q)].k = "en"
               THEN (IF v.n = "I" THEN Recast(prog, <<"item", Key(m, v.q)>>, rt) ELSE KBad)
               ELSE IF ~(v.q \in prog.inc[m] /\ CDefd(prog, Key(v.q, v.n))) THEN KBad
@@ -362,13 +386,15 @@ DKind(prog, m, v, rt, fuel) ==
 
 DCast(prog, m, v, rt, fuel) == DKind(prog, m, v, rt, fuel) # KBad
 
+SvcParentKey(prog, m, par) == IF par.q = "" THEN Key(m, par.n)
+                              ELSE IF SLocalDot(prog, m, par) THEN Key(m, Dot(par.q, par.n)) ELSE Key(par.q, par.n)
 RECURSIVE SvcChainOK(_, _, _)
 SvcChainOK(prog, key, seen) ==
   IF key \in seen THEN FALSE
   ELSE LET par == prog.sv[key].par m == ModOf(key) IN
        IF par.q = "none" THEN TRUE
-       ELSE LET pk == IF par.q = "" THEN Key(m, par.n) ELSE Key(par.q, par.n) IN
-            /\ (par.q = "" \/ par.q \in prog.inc[m])
+       ELSE LET pk == SvcParentKey(prog, m, par) IN
+            /\ (par.q = "" \/ SLocalDot(prog, m, par) \/ par.q \in prog.inc[m])
             /\ SDefd(prog, pk)
             /\ SvcChainOK(prog, pk, seen \cup {key})
 
@@ -391,6 +417,7 @@ Denote(prog) ==
       svcsOK == \A k \in sks : SvcChainOK(prog, k, {})
       ok == refsOK /\ noTdCycle /\ castsOK /\ svcsOK
   IN [ ok |-> ok,
+       parents |-> [ k \in sks |-> IF ~ok \/ prog.sv[k].par.q = "none" THEN <<"", "">> ELSE SvcParentKey(prog, ModOf(k), prog.sv[k].par) ],
        roots |-> [ k \in { x \in tks : prog.ty[x].k = "td" } |-> IF ok THEN TrueRoot(prog, k) ELSE [k |-> "nil", key |-> <<"", "">>, n |-> ""] ] ]
 
 \* projection of a store root handle for comparison with Denote
@@ -420,20 +447,22 @@ AllFinals(prog) == Finals(prog, InitStore(prog), WalkOrderOf(prog), "types", Ste
 (* graph has a cycle are the ones where a Link call can reach an entity whose  *)
 (* own Link is still on the stack (the linkOnce early return), i.e. where the  *)
 (* result can depend on the order; the quick tier always replays them.         *)
-RefTargets(prog, m, ref) == IF ref.q \in {"base", "none"} THEN {} ELSE {<<"t", RefKey(m, ref)>>}
-CValTargets(m, v) == IF v.k # "ref" THEN {}
-                     ELSE IF v.q = "" THEN {<<"c", Key(m, v.n)>>} ELSE {<<"c", Key(v.q, v.n)>>, <<"t", Key(m, v.q)>>}
+RefTargets(prog, m, ref) == IF ref.q \in {"base", "none"} THEN {} ELSE {<<"t", RefKey(prog, m, ref)>>}
+CValTargets(prog, m, v) == IF v.k # "ref" THEN {}
+                     ELSE IF v.q = "" THEN {<<"c", Key(m, v.n)>>}
+                     ELSE IF CLocalDot(prog, m, v.q, v.n) THEN {<<"c", Key(m, Dot(v.q, v.n))>>}
+                     ELSE {<<"c", Key(v.q, v.n)>>, <<"t", Key(m, v.q)>>}
 Succs(prog, node) ==
   LET kd == node[1] key == node[2] m == ModOf(key) IN
   CASE kd = "t" /\ TDefd(prog, key) ->
          LET d == prog.ty[key] IN
          CASE d.k = "td" -> RefTargets(prog, m, d.tgt)
-           [] d.k = "st" -> RefTargets(prog, m, d.fty) \cup CValTargets(m, d.dfl)
+           [] d.k = "st" -> RefTargets(prog, m, d.fty) \cup CValTargets(prog, m, d.dfl)
            [] OTHER -> {}
-    [] kd = "c" /\ CDefd(prog, key) -> RefTargets(prog, m, prog.co[key].ty) \cup CValTargets(m, prog.co[key].val)
+    [] kd = "c" /\ CDefd(prog, key) -> RefTargets(prog, m, prog.co[key].ty) \cup CValTargets(prog, m, prog.co[key].val)
     [] kd = "s" /\ SDefd(prog, key) ->
          LET par == prog.sv[key].par IN
-         IF par.q = "none" THEN {} ELSE IF par.q = "" THEN {<<"s", Key(m, par.n)>>} ELSE {<<"s", Key(par.q, par.n)>>}
+         IF par.q = "none" THEN {} ELSE {<<"s", SvcParentKey(prog, m, par)>>}
     [] OTHER -> {}
 Nodes(prog) == { <<"t", k>> : k \in TKeysOf(prog) } \cup { <<"c", k>> : k \in CKeysOf(prog) } \cup { <<"s", k>> : k \in SKeysOf(prog) }
 RECURSIVE ReachN(_, _, _)
